@@ -38,3 +38,21 @@ Proof.
   - apply dot_roundtrip_parts_any.
   - apply norm_w_subseq.
 Qed.
+
+(* composed with the server's DATA reader: for EVERY body, every partition
+   into Write calls, every network segmentation and every backend read size
+   the backend reads, then sees io.EOF, a message that contains every octet
+   of the body in order, and the command stream resumes behind it *)
+From Smtp Require Import Transport DataReader TransportProofs C16Proofs.
+
+Theorem client_message_nothing_dropped (t : transport) (parts : list bytes) (tail : bytes) (sizes : list nat) :
+  transparent t ->
+  tstream t = dot_write_all parts ++ tail ->
+  let '(out, e, d', t') := backend_reads sizes None (new_data_reader 0) t in
+  subseq (List.concat parts) out /\ e = Some REOF /\ tstream t' = tail.
+Proof.
+  intros Htr Hs.
+  pose proof (client_message_framed t parts tail sizes Htr Hs) as H.
+  destruct (backend_reads sizes None (new_data_reader 0) t) as [[[out e] d'] t'].
+  destruct H as (A & B & C). subst out. split; [apply norm_w_subseq|auto].
+Qed.
